@@ -185,6 +185,81 @@ pub fn run(rep: &mut Rep) {
             add_counters(rep, &w);
         }
     }
+    // the PUBREC cannot be written (transport write error 0-3 bytes into it, or into the PUBCOMP of an earlier exchange):
+    // run() ends, the session is resumed, the broker re-delivers with DUP=1 - still exactly once in total
+    rep.note("acknowledgement write failure: the write of the PUBREC (or of a PUBCOMP) fails after 0-3 bytes, run() ends, the session is resumed, the broker re-delivers the unacknowledged messages with DUP=1 (once or twice) and releases them: every message on the stream exactly once across both connections");
+    let mut fidx = total + 40_000_000;
+    for fail_at in 0..4usize {
+        for before in 0..3usize {
+            for target in 0..2u8 {
+                let id = format!("ackfail:{fail_at}:{before}:{target}");
+                fidx += 1;
+                if !rep.take(fidx, &id) {
+                    continue;
+                }
+                let mut w = World::boot(WorldCfg { seed: rep.seed, sei: Some(3600), ..Default::default() });
+                let a = w.start(0, Kind::Sub);
+                w.settle_check();
+                w.deliver_ack(a, 1, 0, 0);
+                w.settle_check();
+                w.take_stream(a);
+                let sid = w.sub_id_of(a).unwrap_or(1);
+                for j in 0..before {
+                    w.in_publish(2, 10 + j as u16, false, &[sid], false);
+                    w.settle_check();
+                }
+                let at = w.sim.written_len() + fail_at;
+                w.sim.writer.0.borrow_mut().err_at = Some(at);
+                w.sim.note(|| format!("transport: writes fail from offset {at}"));
+                w.term = Some(Term::WriteErr);
+                let pubcomp_fails = target == 1 && before > 0;
+                if !pubcomp_fails {
+                    w.in_publish(2, 5, false, &[sid], false);
+                } else {
+                    // the failing write is the PUBCOMP of an earlier exchange
+                    w.in_pubrel(10);
+                }
+                w.settle_check();
+                let resumed = w.resume(1, Some(3600), false);
+                w.settle_check();
+                if resumed && !w.blind {
+                    if pubcomp_fails {
+                        // the broker saw no PUBCOMP: it releases again; then a first delivery of message 5
+                        w.in_pubrel(10);
+                        w.settle_check();
+                        w.in_publish(2, 5, false, &[sid], false);
+                        w.settle_check();
+                    }
+                    // what the broker re-delivers: everything it has no PUBREC for
+                    w.in_publish(2, 5, true, &[sid], false);
+                    w.settle_check();
+                    if fail_at % 2 == 1 {
+                        w.in_publish(2, 5, true, &[sid], false);
+                        w.settle_check();
+                    }
+                    w.in_pubrel(5);
+                    w.settle_check();
+                    for j in 0..before {
+                        w.in_pubrel(10 + j as u16);
+                        w.settle_check();
+                    }
+                    w.in_publish(2, 5, false, &[sid], false);
+                    w.settle_check();
+                }
+                finish(&mut w);
+                rep.add("evaluations", 1);
+                rep.add("ack_write_failure_cases", 1);
+                rep.distinct(&("ackfail", fail_at, before, target));
+                for v in w.viols.iter_mut() {
+                    if v.sig.starts_with("stream/") && !v.props.contains(&"C09") {
+                        v.props = &["C09"];
+                    }
+                }
+                harvest(rep, &mut w, &id);
+                add_counters(rep, &w);
+            }
+        }
+    }
     // interleaved with QoS 0/1 traffic and client operations
     let a = Alpha {
         kinds: vec![Kind::Sub, Kind::Pub1, Kind::Pub2, Kind::Ping],
